@@ -71,6 +71,13 @@ class Ctx:
     def feasible(self):
         return self._check() != z3.unsat
 
+    def entails(self, cond):
+        """True only if the path condition (with the axioms added so far) implies cond"""
+        cond = sym.simp(cond)
+        if isinstance(cond, bool):
+            return cond
+        return self._check(z3.Not(cond)) == z3.unsat
+
     # ---- branching -----------------------------------------------------
     def branch(self, cond) -> bool:
         cond = sym.simp(cond)
